@@ -77,6 +77,11 @@ structure NumSem where
       LOAD_DATA).  Lemmas/Bulk + Props/C05Sim prove the concrete instance. -/
   bulkS : BulkOp → Mem → Nat → Nat → Nat → Out Mem := fun _ _ _ _ _ => .oof
   bulkT : BulkOp → Mem → Nat → Nat → Nat → Out Mem := fun _ _ _ _ _ => .oof
+  /-- atomic load (no operand), store (one, no result), read-modify-write (one) and compare-exchange (two operands) at an
+      effective address, as executed by ONE thread: value returned (if any), new memory; specification side by opcode, emitted-C side by the runtime function
+      called.  (What other threads may observe is C16's subject, Props/C16Conc.) -/
+  rmwS : String → Mem → Nat → List Val → Out (Option Val × Mem) := fun _ _ _ _ => .oof
+  rmwT : String → Mem → Nat → List Val → Out (Option Val × Mem) := fun _ _ _ _ => .oof
 
 /-- the operand stack after a call: `n` arguments popped, the result (if any) pushed -/
 def afterCall (stk : List Val) (n : Nat) (rt : Option VT) (r : Option Val) (loc : Store) (normal : List Val → Store → α) (stuck : α) : α :=
@@ -109,6 +114,21 @@ def erunBulk (ns : NumSem) (op : BulkOp) (stk : List Val) (loc : Store) : ERes :
   let a := stk.getD (stk.length - 3) (.i32 0)
   match ns.bulkS op loc.g.mem a.bits b.bits c.bits with
   | .val m' => .normal (stk.take (stk.length - 3)) { loc with g := { loc.g with mem := m' } }
+  | .trap t => .trap t
+  | .oof => .oof
+  | _ => .stuck
+
+/-- an atomic access with `n` operands after the address (load 0, store 1, rmw 1, cmpxchg 2): pops them and the address,
+    pushes the result if the instruction has one -/
+def erunRmw (ns : NumSem) (opcode : String) (off n : Nat) (hasRes : Bool) (stk : List Val) (loc : Store) : ERes :=
+  if stk.length < n + 1 then .stuck else
+  let a := stk.getD (stk.length - (n + 1)) (.i32 0)
+  match ns.rmwS opcode loc.g.mem (a.bits + off) (stk.drop (stk.length - n)) with
+  | .val r =>
+    (match hasRes, r.1 with
+     | true, some v => .normal (stk.take (stk.length - (n + 1)) ++ [v]) { loc with g := { loc.g with mem := r.2 } }
+     | false, none => .normal (stk.take (stk.length - (n + 1))) { loc with g := { loc.g with mem := r.2 } }
+     | _, _ => .stuck)
   | .trap t => .trap t
   | .oof => .oof
   | _ => .stuck
@@ -235,6 +255,11 @@ def erunInstr (ns : NumSem) : Nat → EInstr → List Val → Store → ERes
     | .memoryCopy => erunBulk ns .copy stk loc
     | .memoryFill => erunBulk ns .fill stk loc
     | .memoryInit seg => erunBulk ns (.init seg) stk loc
+    | .atomicLoad opcode off => erunRmw ns opcode off 0 true stk loc
+    | .atomicStore opcode off => erunRmw ns opcode off 1 false stk loc
+    | .atomicRmw opcode off => erunRmw ns opcode off 1 true stk loc
+    | .atomicCmpxchg opcode off => erunRmw ns opcode off 2 true stk loc
+    | .atomicFence => .normal stk loc              -- one thread: no effect
     | _ => .stuck                                   -- data.drop: w2c2 reports it as unimplemented and emits nothing
 end
 
@@ -363,6 +388,19 @@ def execStmt (ns : NumSem) : Nat → MStmtC → MSt → MRes
     | .memCopy d s n => execBulk ns .copy d s n σ
     | .memFill d v n => execBulk ns .fill d v n σ
     | .memInit seg d s n => execBulk ns (.init seg) d s n σ
+    | .rmw dst fn addr off args =>
+      (match ns.rmwT fn σ.store.g.mem ((σ.get addr).bits + off) (args.map σ.get) with
+       | .val r =>
+         (match dst, r.1 with
+          | some d, some v => .normal (({ σ with store := { σ.store with g := { σ.store.g with mem := r.2 } } } : MSt).set d v)
+          | none, none => .normal { σ with store := { σ.store with g := { σ.store.g with mem := r.2 } } }
+          | _, _ => .stuck)
+       | .trap t => .trap t
+       | .oof => .oof
+       | _ => .stuck)
+    | .fence => .normal σ
+    | .notify .. => .stuck                         -- wait / notify: concurrency only (C17)
+    | .wait .. => .stuck
 end
 
 /-! ## the relation between the two states -/
